@@ -935,4 +935,69 @@ same transaction makes revert panic — the `none` of the model, the `unwrap` pa
 example : (revert (run Db.empty [.create 3 [(0, [(1, 1)])], .forceWrite 3 0 1])).isNone = true := by
   decide
 
+/-! ### revert preserves the key-uniqueness part of the invariant -/
+
+theorem nodesNodup_kept (nodes : Nodes) (h : NodesNodup nodes) :
+    NodesNodup ((IMap.retain nodes (fun _ nd => !nd.isNew)).map
+      (fun nn => (nn.1, nn.2.revertWrites))) := by
+  constructor
+  · unfold IMap.Nodup IMap.retain
+    rw [List.pairwise_map]
+    exact List.Pairwise.filter _ h.outer
+  · intro x hx
+    obtain ⟨a, ha, rfl⟩ := List.mem_map.mp hx
+    have ha' : a ∈ nodes := (List.mem_filter.mp ha).1
+    have := h.inner a ha'
+    simp only [TNode.revertWrites]
+    unfold IMap.Nodup at this ⊢
+    rw [List.pairwise_map]
+    exact this
+
+theorem applyForcePart_nodup (n p : Nat) (part : TPart) (nodes nodes' : Nodes) (h : NodesNodup nodes)
+    (hr : applyForcePart nodes n p part = some nodes') : NodesNodup nodes' := by
+  induction part generalizing nodes with
+  | nil => simp only [applyForcePart, Option.some.injEq] at hr; exact hr ▸ h
+  | cons ktv rest ih =>
+    simp only [applyForcePart, replaceExisting] at hr
+    split at hr
+    · exact absurd hr (by simp)
+    · rename_i nodes1 h1
+      split at h1
+      · exact absurd h1 (by simp)
+      · simp only [Option.some.injEq] at h1
+        exact ih _ (h1 ▸ nodesNodup_alterPart _ _ _ _ h) hr
+
+theorem applyForceNode_nodup (n : Nat) (parts : List (Nat × TPart)) (nodes nodes' : Nodes)
+    (h : NodesNodup nodes) (hr : applyForceNode nodes n parts = some nodes') : NodesNodup nodes' := by
+  induction parts generalizing nodes with
+  | nil => simp only [applyForceNode, Option.some.injEq] at hr; exact hr ▸ h
+  | cons pp rest ih =>
+    simp only [applyForceNode] at hr
+    split at hr
+    · exact absurd hr (by simp)
+    · rename_i nodes1 h1
+      exact ih _ (applyForcePart_nodup _ _ _ _ _ h h1) hr
+
+theorem applyForce_nodup (force : Nodes) (nodes nodes' : Nodes)
+    (h : NodesNodup nodes) (hr : applyForce nodes force = some nodes') : NodesNodup nodes' := by
+  induction force generalizing nodes with
+  | nil => simp only [applyForce, Option.some.injEq] at hr; exact hr ▸ h
+  | cons nn rest ih =>
+    simp only [applyForce] at hr
+    split at hr
+    · exact absurd hr (by simp)
+    · rename_i nodes1 h1
+      exact ih _ (applyForceNode_nodup _ _ _ _ h h1) hr
+
+/-- `revert_preserves_nodup`: the reverted track keeps the key-uniqueness part of the invariant -/
+theorem revert_preserves_nodup (t t' : Track) (hr : revert t = some t') (h : NodesNodup t.nodes) :
+    NodesNodup t'.nodes := by
+  simp only [revert] at hr
+  split at hr
+  · exact absurd hr (by simp)
+  · rename_i nodes' h1
+    simp only [Option.some.injEq] at hr
+    subst hr
+    exact applyForce_nodup _ _ _ (nodesNodup_kept _ h) h1
+
 end Radix.Track
